@@ -37,6 +37,7 @@
        correspondence check reports OutOfFuel as code 9 and has never seen it). *)
 From Coq Require Import List Bool Arith.
 From Verif Require Import Base.Bytes Idl.Ast Idl.AstUtil Idl.Trim Idl.TrimSpec Idl.TrimWitness Idl.TrimFacts.
+From Verif Require Idl.Resolve Idl.ResolveSpec Idl.ResolveInv Idl.ResolvableSpec Idl.ResolvableConst Idl.TrimResolves.
 Import ListNotations.
 
 (* The closure computed for the correspondence oracles is exactly the inductive
@@ -214,6 +215,48 @@ Theorem C16_trim_resolves_partial :
                      In m (tys_nodes p F (function_types fn)) -> node_survives p q m).
 Proof. exact references_survive. Qed.
 Print Assumptions C16_trim_resolves_partial.
+
+(* trim_resolves against C05's completeness theorem ([resolve_complete]): the trimmed program is
+   [resolvable], hence [Resolve.resolve_program] succeeds on it — every configuration.
+   Hypotheses on the INPUT: it is resolvable; its recorded resolution is the one C05's
+   specification prescribes ([ResolveInv.occ_good] for every type occurrence: what
+   [resolve_program_good] proves of every result of the resolver); the parser's three
+   struct-like lists hold what their names say.
+   Hypotheses on the OUTPUT that remain (decidable; not proved here): its base services
+   resolve ([base_ok]; for the no-filter case C16_base_service_survives_partial shows that
+   the base service and its include are kept, the link to [spec_include] for services is
+   missing), every identifier used as a value keeps exactly one explanation ([ident_ok]: the
+   counting argument is not done), and the include tree of the output is lower than its number
+   of files (it is a subgraph of the input's acyclic include graph; the pigeonhole step is not
+   done).  Proved: distinct plain global names, every type of every kept definition is
+   accepted (typedef chains across files, qualified names after includes were deleted), void
+   functions. *)
+Theorem C16_trim_resolves :
+  forall matches cp c p q fin, wf p ->
+    mark_ast matches cp c p (prog_size p) = Ok fin ->
+    reach cp c p false (prog_size p) fin (main_name p) [] = Ok q ->
+    Idl.ResolvableConst.resolvable p = true ->
+    (forall fn f, prog_file p fn = Some f -> forall t, In t (Idl.ResolveSpec.file_occs f) -> Idl.ResolveInv.occ_good p fn f t) ->
+    (forall fn f k s, prog_file p fn = Some f -> In s (sl_list k f) -> sl_category s = k) ->
+    (match q with [] => true | (mn, _) :: _ => Idl.ResolvableSpec.includes_ok (S (List.length q)) q mn end = true) ->
+    (forall F qf, In (F, qf) q -> forallb (Idl.ResolvableSpec.base_ok q F qf) (f_services qf) = true) ->
+    (forall F qf, In (F, qf) q ->
+       forallb (Idl.ResolvableSpec.cv_idents_ok (Idl.ResolvableConst.ident_ok q F)) (file_top_const_values qf) = true) ->
+    Idl.ResolvableConst.resolvable q = true /\ exists r, Idl.Resolve.resolve_program q = Idl.Resolve.Ok r.
+Proof. exact Idl.TrimResolves.trim_resolves_with. Qed.
+Print Assumptions C16_trim_resolves.
+
+(* the part of it that needs no hypothesis on the output: types *)
+Theorem C16_trimmed_types_resolve :
+  forall matches cp c p q fin, wf p ->
+    mark_ast matches cp c p (prog_size p) = Ok fin ->
+    reach cp c p false (prog_size p) fin (main_name p) [] = Ok q ->
+    Idl.ResolvableConst.resolvable p = true ->
+    (forall fn f, prog_file p fn = Some f -> forall t, In t (Idl.ResolveSpec.file_occs f) -> Idl.ResolveInv.occ_good p fn f t) ->
+    (forall fn f k s, prog_file p fn = Some f -> In s (sl_list k f) -> sl_category s = k) ->
+    forall F qf, In (F, qf) q -> forallb (Idl.ResolvableSpec.ty_ok q F) (Idl.ResolveSpec.file_top_occs qf) = true.
+Proof. exact Idl.TrimResolves.trimmed_types_ok. Qed.
+Print Assumptions C16_trimmed_types_resolve.
 
 (* without a method filter the base service of a kept service and the include it is written
    through are left in the output as well *)
